@@ -18,3 +18,24 @@ func VerifC14StackDepth(pid *PID) int {
 	}
 	return n
 }
+
+// VerifBStack exposes a bare behaviorStack to the E3 harness (controlled schedules on the real
+// Push/Pop/Peek/Len/Reset of actor/behavior_stack.go).
+type VerifBStack struct{ s *behaviorStack }
+
+func VerifNewBStack() *VerifBStack          { return &VerifBStack{s: newBehaviorStack()} }
+func (v *VerifBStack) Obj() any             { return v.s }
+func (v *VerifBStack) Push(b Behavior)      { v.s.Push(b) }
+func (v *VerifBStack) Pop() Behavior        { return v.s.Pop() }
+func (v *VerifBStack) Peek() Behavior       { return v.s.Peek() }
+func (v *VerifBStack) Len() int             { return v.s.Len() }
+func (v *VerifBStack) Reset()               { v.s.Reset() }
+
+// Chain returns the behaviours linked from the top (sequential use only), at most max of them.
+func (v *VerifBStack) Chain(max int) []Behavior {
+	var out []Behavior
+	for p := atomic.LoadPointer(&v.s.top); p != nil && len(out) < max; p = atomic.LoadPointer(&(*bnode)(p).next) {
+		out = append(out, (*bnode)(p).value)
+	}
+	return out
+}
